@@ -27,6 +27,10 @@ CHECKS = {
    technique="runtime monitoring: per-node replay of delivered receipts compared with the node's round->validator-set function after every step",
    text="For every node (including late joiners replaying from genesis) the function round -> validator set is compared after every step with genesis modified by the accepted receipts of that node's delivered blocks at round-received+6; block peer-set hashes and witness membership are checked. Membership scripts: successive / simultaneous joins, leaves, re-join after leave, refusals.",
    note="Sets compared as sets of keys; order judged through the block's peer-set hash against the node's own reported set."),
+ "C19": dict(engine="thresholds", cat="exploration", ref="DESIGN.md §3 C19",
+   technique="runtime monitoring: the real threshold methods and acceptance decisions executed for every n in 1..100000 against integer arithmetic",
+   text="Exhaustive for the stated range: SuperMajority()/TrustCount() of real PeerSet values for every n = 1..100000 against 'least k with 3k>2n' and 'accepted count > n/3' and the derived intersection facts; random branching add/remove/re-add sequences through WithNewPeer/WithRemovedPeer against a model of distinct keys; the real CheckBlock and SetAnchorBlock for all n<=16, k<=n with real keys.",
+   note="For n>1500 the PeerSet is assembled from the same exported fields NewPeerSet fills (maps shared between successive n). Refusal of sufficient signatures is not flagged."),
 }
 
 REASONS_NOT_YET = "check not built yet in this session (planned; see DESIGN.md)"
@@ -68,6 +72,8 @@ def main():
         "engines": [
             {"name": "nodesim", "path": "/verif/harness", "serves_properties": [p for p in ALL if p in CHECKS and CHECKS[p]["engine"] == "nodesim"],
              "kind_free_text": "deterministic single-threaded network of real node.Node objects driven through a synchronous harness transport; monitors at the commit callback, RPC boundary and store API"},
+            {"name": "thresholds", "path": "/verif/harness/thresholds.go", "serves_properties": [p for p in ALL if p in CHECKS and CHECKS[p]["engine"] == "thresholds"],
+             "kind_free_text": "executes the real quorum arithmetic and acceptance decisions over an exhaustive range of set sizes"},
         ],
         "checks": checks,
         "not_applicable": [{"property_id": p, "reason": REASONS_NOT_YET} for p in ALL if p not in CHECKS],
